@@ -5,6 +5,23 @@ NOTES = ("Every claimed property: theorems in coq/Properties/<id>.v (only `exact
          "Print Assumptions), model in coq/Model, correspondence drivers in harness/. Known findings: KNOWN_FINDINGS.jsonl. See DESIGN.md.")
 NOT_APPLICABLE = {}
 META = {
+    "C05": {
+        "text": "Coq theorem C05_recipients_exact: for every template oracle, every add/remove/dispatch history and arbitrary forgetting by the memo cache, "
+                "each dispatch is handed to exactly the connected matching (and, if private, authorized) subscribers; plus the key codec round-trip over all "
+                "byte strings (delimiter/escape bytes, empty strings, duplicates). Model tied to the real SubscriberList by differential histories evaluated in Coq.",
+        "design_ref": "DESIGN.md §5 C05",
+        "note": "trusted: Coq kernel + vm_compute; skipfilter/roaring/LRU by contract; uritemplate/regexp as oracle; Go drivers",
+        "technique": "Coq proof (index invariant by induction over operation histories; codec round-trip) + differential correspondence evaluated in Coq",
+    },
+    "C11": {
+        "text": "Coq theorems over mercure's own matching logic with the URI-template library as a parameter: the rule (C11_spec, invalid template matches only "
+                "itself), the code's shortcut follows the rule, the cache is transparent for every lookup history from every truthful cache state (any evictions), "
+                "and under every interleaving of the cache Get/Set steps of concurrent evaluations. Tied to the code by lookup sequences (sequential and concurrent) "
+                "against stores of every size, each answer compared with a fresh uncached evaluation.",
+        "design_ref": "DESIGN.md §5 C11",
+        "note": "trusted: Coq kernel + vm_compute; uritemplate + regexp as oracle (RFC 6570 expansion semantics itself is not modelled: layer B of the design is not built); LRU by contract; Go drivers",
+        "technique": "Coq proof (cache-truthfulness invariant over all histories and interleavings) + differential correspondence evaluated in Coq",
+    },
     "C12": {
         "text": "Coq theorems C12_roundtrip / C12_stream: for every payload and every id/type free of line breaks (id free of U+0000) the modelled "
                 "Event.String() bytes decode, under a Gallina transcription of the WHATWG event-stream algorithm, to exactly one event with the published "
